@@ -57,6 +57,8 @@
 static uint16 Lastref        = 0; /* Last ref read/written */
 static uint16 Next_label_ref = 0; /* Next file label ref to read/write */
 static uint16 Next_desc_ref  = 0; /* Next file desc ref to read/write */
+static int    Labels_done    = FALSE; /* the last file label has been read: "next" finds nothing */
+static int    Descs_done     = FALSE; /* the same for file descriptions */
 
 static char *Lastfile = NULL;
 
@@ -1345,6 +1347,12 @@ DFANIaddfann(int32 file_id, char *ann, int32 annlen, int type)
     if (FAIL == Hputelement(file_id, anntag, annref, (uint8 *)ann, annlen))
         HGOTO_ERROR(DFE_PUTELEM, FAIL);
 
+    /* a listing that had come to its end may find the new annotation */
+    if (type == DFAN_LABEL)
+        Labels_done = FALSE;
+    else
+        Descs_done = FALSE;
+
     Lastref = annref; /* remember ref last accessed */
 
 done:
@@ -1396,6 +1404,15 @@ DFANIgetfannlen(int32 file_id, int type, int isfirst)
         anntag = DFTAG_FD;
         annref = (uint16)((isfirst == 1) ? DFREF_WILDCARD : Next_desc_ref);
     }
+    /* a new listing starts over; a listing that has come to its end stays there */
+    if (isfirst == 1) {
+        if (type == DFAN_LABEL)
+            Labels_done = FALSE;
+        else
+            Descs_done = FALSE;
+    }
+    else if ((type == DFAN_LABEL) ? Labels_done : Descs_done)
+        HGOTO_ERROR(DFE_NOMATCH, FAIL);
     aid = Hstartread(file_id, anntag, annref);
     if (aid == FAIL)
         HGOTO_ERROR(DFE_BADAID, FAIL);
@@ -1473,6 +1490,16 @@ DFANIgetfann(int32 file_id, char *ann, int32 maxlen, int type, int isfirst)
         annref = (uint16)((isfirst == 1) ? DFREF_WILDCARD : Next_desc_ref);
     }
 
+    /* a new listing starts over; a listing that has come to its end stays there */
+    if (isfirst == 1) {
+        if (type == DFAN_LABEL)
+            Labels_done = FALSE;
+        else
+            Descs_done = FALSE;
+    }
+    else if ((type == DFAN_LABEL) ? Labels_done : Descs_done)
+        HGOTO_ERROR(DFE_NOMATCH, FAIL);
+
     if ((aid = Hstartread(file_id, anntag, annref)) == FAIL)
         HGOTO_ERROR(DFE_BADAID, FAIL);
     if (FAIL == Hinquire(aid, (int32 *)NULL, (uint16 *)NULL, &annref, &length, (int32 *)NULL, (int32 *)NULL,
@@ -1498,10 +1525,14 @@ DFANIgetfann(int32 file_id, char *ann, int32 maxlen, int type, int isfirst)
     /* prepare for next call */
     if (FAIL ==
         Hnextread(aid, anntag, DFREF_WILDCARD, DF_CURRENT)) { /* If no more of them, set Next_ ???_ref */
-        if (type == DFAN_LABEL)                               /*    to one higher than the ref just    */
-            Next_label_ref = (uint16)(annref + 1);            /*    read so that next call will fail.  */
-        else
+        if (type == DFAN_LABEL) {                             /*    to one higher than the ref just    */
+            Next_label_ref = (uint16)(annref + 1);            /*    read and remember that the listing */
+            Labels_done    = TRUE;                            /*    is over: that ref may well exist   */
+        }                                                     /*    earlier in the file.               */
+        else {
             Next_desc_ref = (uint16)(annref + 1);
+            Descs_done    = TRUE;
+        }
     }
     else { /* Otherwise save the next ref */
         if (FAIL == Hinquire(aid, (int32 *)NULL, (uint16 *)NULL, &annref, (int32 *)NULL, (int32 *)NULL,
